@@ -24,7 +24,7 @@ Definition shipped_rules : list rule := [
 {| r_group := "sloppyLen"; r_patterns := ["len($_) >= 0"]; r_where := ""; r_suggest := ""; r_report := "$$ is always true" |};
 {| r_group := "sloppyLen"; r_patterns := ["len($_) < 0"]; r_where := ""; r_suggest := ""; r_report := "$$ is always false" |};
 {| r_group := "sloppyLen"; r_patterns := ["len($x) <= 0"]; r_where := ""; r_suggest := ""; r_report := "$$ can be len($x) == 0" |};
-{| r_group := "valSwap"; r_patterns := ["$tmp := $y; $y = $x; $x = $tmp"]; r_where := ""; r_suggest := ""; r_report := "can re-write as `$y, $x = $x, $y`" |};
+{| r_group := "valSwap"; r_patterns := ["$tmp := $y; $y = $x; $x = $tmp"]; r_where := "m[""x""].Pure && m[""y""].Pure"; r_suggest := ""; r_report := "can re-write as `$y, $x = $x, $y`" |};
 {| r_group := "switchTrue"; r_patterns := ["switch true { $*_ }"]; r_where := ""; r_suggest := ""; r_report := "replace 'switch true {}' with 'switch {}'" |};
 {| r_group := "switchTrue"; r_patterns := ["switch $x; true { $*_ }"]; r_where := ""; r_suggest := ""; r_report := "replace 'switch $x; true {}' with 'switch $x; {}'" |};
 {| r_group := "emptyStringTest"; r_patterns := ["len($s) != 0"]; r_where := "m[""s""].Type.Is(`string`)"; r_suggest := ""; r_report := "replace `$$` with `$s != """"`" |};
@@ -84,7 +84,7 @@ Definition shipped_rules : list rule := [
 {| r_group := "yodaStyleExpr"; r_patterns := ["nil == $x"]; r_where := "!m[""x""].Node.Is(`BasicLit`)"; r_suggest := ""; r_report := "consider to change order in expression to $x == nil" |};
 {| r_group := "stringConcatSimplify"; r_patterns := ["strings.Join([]string{$x, $y}, """")"]; r_where := ""; r_suggest := "$x + $y"; r_report := "" |};
 {| r_group := "stringConcatSimplify"; r_patterns := ["strings.Join([]string{$x, $y, $z}, """")"]; r_where := ""; r_suggest := "$x + $y + $z"; r_report := "" |};
-{| r_group := "stringConcatSimplify"; r_patterns := ["strings.Join([]string{$x, $y}, $glue)"]; r_where := ""; r_suggest := "$x + $glue + $y"; r_report := "" |};
+{| r_group := "stringConcatSimplify"; r_patterns := ["strings.Join([]string{$x, $y}, $glue)"]; r_where := "m[""glue""].Pure"; r_suggest := "$x + $glue + $y"; r_report := "" |};
 {| r_group := "timeExprSimplify"; r_patterns := ["$t.Unix() / 1000"]; r_where := "m.GoVersion().GreaterEqThan(""1.17"") && isTime(m[""t""])"; r_suggest := "$t.UnixMilli()"; r_report := "use $t.UnixMilli() instead of $$" |};
 {| r_group := "timeExprSimplify"; r_patterns := ["$t.UnixNano() * 1000"]; r_where := "m.GoVersion().GreaterEqThan(""1.17"") && isTime(m[""t""])"; r_suggest := "$t.UnixMicro()"; r_report := "use $t.UnixMicro() instead of $$" |};
 {| r_group := "stringsCompare"; r_patterns := ["strings.Compare($s1, $s2) == 0"]; r_where := ""; r_suggest := "$s1 == $s2"; r_report := "" |};
@@ -124,7 +124,7 @@ Definition rw_compare (o : binop) (k : expr) (o' : binop) (s1 s2 : expr) :=
   {| rw_name := "stringsCompare"; rw_lhs := EBinary o (call2 PStrCompare s1 s2) k; rw_rhs := EBinary o' s1 s2 |}.
 (* unslice: $s[:] => $s  (filter: string or slice type) *)
 Definition rw_unslice (s : expr) := {| rw_name := "unslice"; rw_lhs := ESliceAll s; rw_rhs := s |}.
-(* stringConcatSimplify: strings.Join([]string{$x, $y}, $glue) => $x + $glue + $y   (NO filter) *)
+(* stringConcatSimplify: strings.Join([]string{$x, $y}, $glue) => $x + $glue + $y   (filter m["glue"].Pure since the fix; rw_join_glue below is the unfiltered pre-fix triple) *)
 Definition rw_join_glue (x y g : expr) := {| rw_name := "stringConcatSimplify"; rw_lhs := ECall (FPrim PJoin2) [x; y; g]; rw_rhs := EBinary OAdd (EBinary OAdd x g) y |}.
 (* timeExprSimplify (filter: $t is time.Time) *)
 Definition rw_unix_milli (t : expr) := {| rw_name := "timeExprSimplify"; rw_lhs := EBinary OQuo (call1 PUnix t) lit1000; rw_rhs := call1 PUnixMilli t |}.
